@@ -59,6 +59,14 @@ impl Network for Adversary {
             pending.push(packet);
             Ok(())
         });
+        // the simulator drains host queues in HashMap order (random per process); restore determinism:
+        // group by sender (FIFO within a sender), order of senders drawn from the scenario PRNG
+        pending.sort_by_key(|p: &Packet| format!("{}", p.path.local_address.0));
+        if pending.len() > 1 && self.rng.below(2) == 1 {
+            let first = format!("{}", pending[0].path.local_address.0);
+            let k = pending.iter().position(|p| format!("{}", p.path.local_address.0) != first).unwrap_or(pending.len());
+            pending.rotate_left(k);
+        }
         let mut count = 0;
         for packet in pending {
             self.serial += 1;
